@@ -326,7 +326,7 @@ theorem loop_step (K : KTree) (pres : Nat → Bool) (t fuel p : Nat) (M0 : Lmt)
           have hb := hb0 x
           have h5 : ¬ o.L x = acc.L x := by omega
           have h6 : ¬ o.L x = M0 x := by omega
-          simp [e, h5, h6]
+          simp [e, h6]
       -- closure of the edges strictly inside `p`, given the state of `c` itself carries `t` whenever a child of `c` does
       have hclosed_o : (∀ c', K.parent c' = some c → o.L c' = t → o.L c = t) →
           ∀ c' q', K.parent c' = some q' → Anc K.toTree p q' → q' ≠ p → o.L c' = t → o.L q' = t := by
@@ -688,14 +688,31 @@ theorem wholeOut_r (K : KTree) (p t : Nat) (pres : Nat → Bool) (L : Lmt) :
   | none => simp only [hr]
   | some b => cases b <;> simp only [hr]
 
+theorem whole_cases (K : KTree) (p t : Nat) (pres : Nat → Bool) (L : Lmt) :
+    ((copyF K t pres (K.height p + 1) p L).r = some true ∧
+      wholeOut K p t pres L =
+        ⟨markUp K.toTree (p + 1) p t (copyF K t pres (K.height p + 1) p L).L,
+         (copyF K t pres (K.height p + 1) p L).N ++ markUpN K.toTree (p + 1) p t (copyF K t pres (K.height p + 1) p L).L,
+         (copyF K t pres (K.height p + 1) p L).V, some true⟩) ∨
+    ((copyF K t pres (K.height p + 1) p L).r ≠ some true ∧
+      wholeOut K p t pres L = copyF K t pres (K.height p + 1) p L) := by
+  unfold wholeOut
+  cases hr : (copyF K t pres (K.height p + 1) p L).r with
+  | none => right; exact ⟨by simp, by simp only [hr]⟩
+  | some b =>
+    cases b with
+    | true => left; exact ⟨rfl, by simp only [hr]⟩
+    | false => right; exact ⟨by simp, by simp only [hr]⟩
+
 /-- **`lmt child ≤ lmt parent ≤ now` survives every whole-value write** — also one that fails half-way with the
     duplicate-modification error -/
 theorem whole_inv (K : KTree) (hnd : ∀ q, (K.kids q).Nodup) (pres : Nat → Bool) (now t p : Nat) (L : Lmt)
     (h : Inv K.toTree now L) (ht : now ≤ t) : Inv K.toTree t (whole K p t pres L) := by
   have S := whole_core K hnd pres now t p L h ht
   have hb : ∀ x, L x ≤ t := fun x => Nat.le_trans (h.2 x) ht
-  unfold whole wholeOut
-  generalize copyF K t pres (K.height p + 1) p L = o at S
+  have hW := whole_cases K p t pres L
+  unfold whole
+  generalize copyF K t pres (K.height p + 1) p L = o at S hW
   have hbo : ∀ x, o.L x ≤ t := by
     intro x; rcases S.frame x with e | ⟨e, _⟩
     · rw [e]; exact hb x
@@ -704,58 +721,611 @@ theorem whole_inv (K : KTree) (hnd : ∀ q, (K.kids q).Nodup) (pres : Nat → Bo
     intro x; rcases S.frame x with e | ⟨e, _⟩
     · omega
     · have := hb x; omega
-  have hedge : ∀ c q, K.parent c = some q → o.L c ≤ o.L q ∨ (q = p ∧ o.L c = t) := by
+  have hop : o.L p = L p := by
+    rcases S.frame p with e | ⟨_, e, _⟩
+    · exact e
+    · exact absurd rfl e
+  have hedge : ∀ c q, K.parent c = some q → o.L c ≤ o.L q ∨ (q = p ∧ o.L c = t ∧ L c < t) := by
     intro c q hc
-    rcases S.frame c with e | ⟨e, hcp, hpc, _⟩
+    rcases S.frame c with e | ⟨e, hcp, hpc, hlt⟩
     · left; rw [e]; exact Nat.le_trans (h.1 c q hc) (hmono q)
     · by_cases hq : q = p
-      · exact Or.inr ⟨hq, e⟩
+      · exact Or.inr ⟨hq, e, hlt⟩
       · left
         have := S.closed c q hc (anc_parent_of_ne hc hpc (Ne.symm hcp)) hq e
         omega
-  cases hr : o.r with
-  | none =>
-    simp only
-    obtain ⟨ept, _⟩ := S.err hr
+  rcases hW with ⟨hr, hw⟩ | ⟨hr, hw⟩
+  · rw [hw]
+    obtain ⟨m1, m2, _, _⟩ := markUp_spec K.toTree t (p + 1) p o.L (Nat.lt_succ_self p) hbo
+      (fun c q hc => (hedge c q hc).imp id (fun ⟨a, b, _⟩ => ⟨a, b⟩))
+    exact ⟨m1, m2⟩
+  · rw [hw]
     refine ⟨?_, hbo⟩
     intro c q hc
-    rcases hedge c q hc with h1 | ⟨hq, _⟩
+    rcases hedge c q hc with h1 | ⟨hq, hct, hlt⟩
     · exact h1
     · subst hq
-      have : o.L q = L q := by
-        rcases S.frame q with e | ⟨_, e, _⟩
-        · exact e
-        · exact absurd rfl e
-      have := hbo c; omega
-  | some b =>
-    obtain ⟨sL, sB, _⟩ := S.ok b hr
-    cases b with
-    | false =>
-      simp only
-      refine ⟨?_, hbo⟩
-      intro c q hc
-      rcases hedge c q hc with h1 | ⟨hq, hct⟩
-      · exact h1
-      · exfalso
-        rcases S.frame c with e | ⟨_, hcp, hpc, hlt⟩
-        · -- `c` carried `t` before: then so did `p`
-          have := h.1 c q hc; have := hb q; have := hmono q; have := hbo q
-          subst hq
-          have hqq : o.L q = L q := by
-            rcases S.frame q with e' | ⟨_, e', _⟩
-            · exact e'
-            · exact absurd rfl e'
-          -- nothing to contradict: the edge is ordered
-          omega
-        · have hx := sL c
+      cases hor : o.r with
+      | none =>
+        obtain ⟨ept, _⟩ := S.err hor
+        have := hbo c; omega
+      | some b =>
+        cases b with
+        | true => exact absurd hor hr
+        | false =>
+          exfalso
+          obtain ⟨sL, sB, _⟩ := S.ok false hor
+          have hx := sL c
           rw [hct] at hx
-          by_cases hcond : c ≠ p ∧ Anc K.toTree p c ∧ Fresh K pres t (K.height p + 1) p L c
+          by_cases hcond : c ≠ q ∧ Anc K.toTree q c ∧ Fresh K pres t (K.height q + 1) q L c
           · obtain ⟨_, _, l, hl, _, hne⟩ := hcond
             have := sB.mpr ⟨l, hl, hne⟩; cases this
           · rw [if_neg hcond] at hx; omega
-    | true =>
+
+/-- when no error is raised, the records after the write are the flat reading: every position at / above a present
+    leaf carries `t`, every other position is untouched -/
+theorem whole_ok_pointwise (K : KTree) (hnd : ∀ q, (K.kids q).Nodup) (pres : Nat → Bool) (now t p : Nat) (L : Lmt)
+    (h : Inv K.toTree now L) (ht : now ≤ t) (hok : (wholeOut K p t pres L).r ≠ none) :
+    ∀ x, whole K p t pres L x = if (∃ l, PresLeaf K pres p l ∧ Anc K.toTree x l) then t else L x := by
+  have S := whole_core K hnd pres now t p L h ht
+  have hb : ∀ x, L x ≤ t := fun x => Nat.le_trans (h.2 x) ht
+  have hW := whole_cases K p t pres L
+  rw [wholeOut_r] at hok
+  have hPL := mem_presLeaves_fuel K pres p
+  unfold whole
+  generalize copyF K t pres (K.height p + 1) p L = o at S hW hok
+  -- a present leaf that is not fresh carries `t`, and so does everything above it
+  have hstale : ∀ x l, PresLeaf K pres p l → Anc K.toTree x l → L l = t → L x = t :=
+    fun x l _ hxl hlt => anc_eq_of_top hb h.1 hxl hlt
+  intro x
+  cases hor : o.r with
+  | none => exact absurd hor hok
+  | some b =>
+    obtain ⟨sL, sB, _⟩ := S.ok b hor
+    rcases hW with ⟨hr, hw⟩ | ⟨hr, hw⟩
+    · -- some fresh leaf: the position and everything above it is stamped by `mark_modified`
+      rw [hw]
+      have hbo : ∀ x, o.L x ≤ t := by
+        intro x; rcases S.frame x with e | ⟨e, _⟩
+        · rw [e]; exact hb x
+        · omega
+      have hedge : ∀ c q, K.parent c = some q → o.L c ≤ o.L q ∨ (q = p ∧ o.L c = t) := by
+        intro c q hc
+        rcases S.frame c with e | ⟨e, hcp, hpc, hlt⟩
+        · left; rw [e]
+          have : L q ≤ o.L q := by
+            rcases S.frame q with e' | ⟨e', _⟩
+            · omega
+            · have := hb q; omega
+          exact Nat.le_trans (h.1 c q hc) this
+        · by_cases hq : q = p
+          · exact Or.inr ⟨hq, e⟩
+          · left
+            have := S.closed c q hc (anc_parent_of_ne hc hpc (Ne.symm hcp)) hq e
+            omega
+      obtain ⟨_, _, m3, m4⟩ := markUp_spec K.toTree t (p + 1) p o.L (Nat.lt_succ_self p) hbo hedge
+      have hbt : b = true := by rw [hor] at hr; injection hr
+      obtain ⟨l0, hl0, hne0⟩ := sB.mp hbt
+      have hP0 : PresLeaf K pres p l0 := (hPL l0).mp hl0
+      by_cases hxp : Anc K.toTree x p
+      · show markUp K.toTree (p + 1) p t o.L x = _
+        rw [m3 x hxp, if_pos ⟨l0, hP0, anc_trans hxp (presLeaf_anc hP0)⟩]
+      · show markUp K.toTree (p + 1) p t o.L x = _
+        rw [m4 x hxp, sL x]
+        by_cases hex : ∃ l, PresLeaf K pres p l ∧ Anc K.toTree x l
+        · rw [if_pos hex]
+          obtain ⟨l, hl, hxl⟩ := hex
+          have hpx : Anc K.toTree p x := by
+            rcases anc_linear hxl (presLeaf_anc hl) with h1 | h1
+            · exact absurd h1 hxp
+            · exact h1
+          have hne : x ≠ p := by intro e; subst e; exact hxp (Anc.refl _)
+          by_cases hfr : Fresh K pres t (K.height p + 1) p L x
+          · rw [if_pos ⟨hne, hpx, hfr⟩]
+          · rw [if_neg (fun hh => hfr hh.2.2)]
+            apply hstale x l hl hxl
+            have := hb l
+            exact Classical.byContradiction fun hlt => hfr ⟨l, (hPL l).mpr hl, hxl, hlt⟩
+        · rw [if_neg hex]
+          have : ¬ (x ≠ p ∧ Anc K.toTree p x ∧ Fresh K pres t (K.height p + 1) p L x) := by
+            rintro ⟨_, _, l, hl, hxl, _⟩; exact hex ⟨l, (hPL l).mp hl, hxl⟩
+          rw [if_neg this]
+    · -- no fresh leaf: nothing is recorded anywhere
+      rw [hw]
+      have hbf : b = false := by
+        cases b with
+        | true => exact absurd hor hr
+        | false => rfl
+      subst hbf
+      have nofresh : ¬ ∃ l, l ∈ leavesF K pres (K.height p + 1) p ∧ L l ≠ t := fun hh => by
+        have := sB.mpr hh; cases this
+      have : ¬ (x ≠ p ∧ Anc K.toTree p x ∧ Fresh K pres t (K.height p + 1) p L x) := by
+        rintro ⟨_, _, l, hl, _, hne⟩; exact nofresh ⟨l, hl, hne⟩
+      rw [sL x, if_neg this]
+      by_cases hex : ∃ l, PresLeaf K pres p l ∧ Anc K.toTree x l
+      · rw [if_pos hex]
+        obtain ⟨l, hl, hxl⟩ := hex
+        apply hstale x l hl hxl
+        exact Classical.byContradiction fun hlt => nofresh ⟨l, (hPL l).mpr hl, hlt⟩
+      · rw [if_neg hex]
+
+/-- **a whole-value write modifies / validates exactly the positions with a present leaf at or below them (that is:
+    the present leaves and all their ancestors), and touches nothing else** (when no error is raised) -/
+theorem whole_write_modified_iff_present_leaf_below (K : KTree) (hnd : ∀ q, (K.kids q).Nodup) (pres : Nat → Bool)
+    (now t p : Nat) (L : Lmt) (h : Inv K.toTree now L) (ht : now ≤ t) (h0 : 0 < t)
+    (hok : (wholeOut K p t pres L).r ≠ none) :
+    (∀ x, modified (whole K p t pres L) x t ↔ modified L x t ∨ ∃ l, PresLeaf K pres p l ∧ Anc K.toTree x l) ∧
+    (∀ x, valid (whole K p t pres L) x ↔ valid L x ∨ ∃ l, PresLeaf K pres p l ∧ Anc K.toTree x l) ∧
+    (∀ x, ¬ (∃ l, PresLeaf K pres p l ∧ Anc K.toTree x l) → whole K p t pres L x = L x) := by
+  have hp := whole_ok_pointwise K hnd pres now t p L h ht hok
+  refine ⟨fun x => ?_, fun x => ?_, fun x hx => ?_⟩
+  · unfold modified; rw [hp x]
+    by_cases hex : ∃ l, PresLeaf K pres p l ∧ Anc K.toTree x l
+    · rw [if_pos hex]; exact ⟨fun _ => Or.inr hex, fun _ => rfl⟩
+    · rw [if_neg hex]; exact ⟨Or.inl, fun hh => hh.elim id (fun e => absurd e hex)⟩
+  · unfold valid; rw [hp x]
+    by_cases hex : ∃ l, PresLeaf K pres p l ∧ Anc K.toTree x l
+    · rw [if_pos hex]; exact ⟨fun _ => Or.inr hex, fun _ => by omega⟩
+    · rw [if_neg hex]; exact ⟨Or.inl, fun hh => hh.elim id (fun e => absurd e hex)⟩
+  · rw [hp x, if_neg hx]
+
+/-! ## an all-unset value is a no-op -/
+
+theorem foldl_childStep_unset (t : Nat) (pres : Nat → Bool) (rec : Nat → Lmt → WOut) :
+    ∀ (cs : List Nat) (acc : WOut), (∀ c, c ∈ cs → pres c = false) → cs.foldl (childStep t pres rec) acc = acc := by
+  intro cs
+  induction cs with
+  | nil => intro acc _; rfl
+  | cons c cs ih =>
+    intro acc hcs
+    have hc := hcs c List.mem_cons_self
+    have : childStep t pres rec acc c = acc := by
+      unfold childStep
+      cases acc.r with
+      | none => rfl
+      | some nm => simp [hc]
+    rw [List.foldl_cons, this]
+    exact ih acc (fun c' h => hcs c' (List.mem_cons_of_mem _ h))
+
+/-- **a whole-value write whose value has EVERY field unset changes no record, notifies no observer and answers
+    `false`** — in every state, with no assumption at all (the code path: every child is skipped, `newly_modified`
+    stays false, `mark_modified()` is not called) -/
+theorem whole_write_all_unset_is_noop (K : KTree) (p t : Nat) (pres : Nat → Bool) (L : Lmt)
+    (hcont : K.kids p ≠ []) (hun : ∀ c, K.parent c = some p → pres c = false) :
+    wholeOut K p t pres L = ⟨L, [], [], some false⟩ := by
+  have : copyF K t pres (K.height p + 1) p L = ⟨L, [], [], some false⟩ := by
+    rw [copyF_succ, if_neg hcont]
+    exact foldl_childStep_unset t pres _ _ _ (fun c hc => hun c ((K.kids_iff p c).mp hc))
+  unfold wholeOut
+  rw [this]
+
+/-- the same for every value that holds no leaf at all (present inner containers that are themselves empty, at any
+    depth): no record changes, nobody is notified, the answer is `false` -/
+theorem whole_write_no_present_leaf_is_noop (K : KTree) (hnd : ∀ q, (K.kids q).Nodup) (pres : Nat → Bool)
+    (now t p : Nat) (L : Lmt) (h : Inv K.toTree now L) (ht : now ≤ t)
+    (hno : ∀ l, ¬ PresLeaf K pres p l) :
+    whole K p t pres L = L ∧ wholeN K p t pres L = [] ∧ (wholeOut K p t pres L).r = some false := by
+  have S := whole_core K hnd pres now t p L h ht
+  have hW := whole_cases K p t pres L
+  have hPL := mem_presLeaves_fuel K pres p
+  unfold whole wholeN
+  generalize copyF K t pres (K.height p + 1) p L = o at S hW
+  have nofresh : ∀ x, ¬ Fresh K pres t (K.height p + 1) p L x := by
+    rintro x ⟨l, hl, _⟩; exact hno l ((hPL l).mp hl)
+  have hr : o.r = some false := by
+    cases hor : o.r with
+    | none => obtain ⟨_, y, _, _, _, hf⟩ := S.err hor; exact absurd hf (nofresh y)
+    | some b =>
+      cases b with
+      | false => rfl
+      | true =>
+        obtain ⟨l, hl, _⟩ := (S.ok true hor).2.1.mp rfl
+        exact absurd ((hPL l).mp hl) (hno l)
+  rcases hW with ⟨hr', _⟩ | ⟨_, hw⟩
+  · rw [hr] at hr'; cases hr'
+  · rw [hw]
+    have hL : ∀ x, o.L x = L x := by
+      intro x
+      rw [(S.ok false hr).1 x, if_neg (fun hh => nofresh x hh.2.2)]
+    refine ⟨funext hL, ?_, hr⟩
+    apply List.eq_nil_iff_forall_not_mem.mpr
+    intro x hx
+    have := S.count x
+    rw [if_pos (hL x)] at this
+    exact absurd (List.count_pos_iff.mpr hx) (by omega)
+
+/-! ## a whole-value write is the sequence of the leaf writes of its present leaves -/
+
+theorem run_writes_spec (K : KTree) (t : Nat) : ∀ (ls : List Nat) (now : Nat) (L : Lmt), Inv K.toTree now L → now ≤ t →
+    (∀ x, run K (ls.map (fun l => Op.w l t)) L x = if (∃ l, l ∈ ls ∧ Anc K.toTree x l) then t else L x) := by
+  intro ls
+  induction ls with
+  | nil =>
+    intro now L _ _ x
+    have : ¬ ∃ l, l ∈ ([] : List Nat) ∧ Anc K.toTree x l := by rintro ⟨l, hl, _⟩; exact absurd hl List.not_mem_nil
+    rw [if_neg this]; rfl
+  | cons l ls ih =>
+    intro now L h ht x
+    obtain ⟨i1, a1, f1⟩ := write_spec K.toTree now t l L h ht
+    have := ih t (write K.toTree l t L) i1 (Nat.le_refl _) x
+    show run K (ls.map (fun l => Op.w l t)) (apply K (.w l t) L) x = _
+    rw [show apply K (.w l t) L = write K.toTree l t L from rfl, this]
+    by_cases h1 : ∃ l', l' ∈ ls ∧ Anc K.toTree x l'
+    · obtain ⟨l', hl', ha⟩ := h1
+      rw [if_pos ⟨l', hl', ha⟩, if_pos ⟨l', List.mem_cons_of_mem _ hl', ha⟩]
+    · rw [if_neg h1]
+      by_cases h2 : Anc K.toTree x l
+      · rw [if_pos ⟨l, List.mem_cons_self, h2⟩]; exact a1 x h2
+      · have : ¬ ∃ l', l' ∈ l :: ls ∧ Anc K.toTree x l' := by
+          rintro ⟨l', hl', ha⟩
+          rcases List.mem_cons.mp hl' with rfl | hl'
+          · exact h2 ha
+          · exact h1 ⟨l', hl', ha⟩
+        rw [if_neg this]; exact f1 x h2
+
+/-- **whenever no error is raised, the whole-value write leaves exactly the records that the leaf writes of its
+    present leaves (in call order — or in any other order, `run_writes_spec`) leave** -/
+theorem whole_write_eq_leaf_writes (K : KTree) (hnd : ∀ q, (K.kids q).Nodup) (pres : Nat → Bool) (now t p : Nat)
+    (L : Lmt) (h : Inv K.toTree now L) (ht : now ≤ t) (hok : (wholeOut K p t pres L).r ≠ none) :
+    whole K p t pres L = run K ((presLeaves K pres p).map (fun l => Op.w l t)) L := by
+  funext x
+  rw [whole_ok_pointwise K hnd pres now t p L h ht hok x, run_writes_spec K t _ now L h ht x]
+  apply ite_iff_congr
+  constructor
+  · rintro ⟨l, hl, ha⟩; exact ⟨l, (mem_presLeaves_iff K pres p l).mpr hl, ha⟩
+  · rintro ⟨l, hl, ha⟩; exact ⟨l, (mem_presLeaves_iff K pres p l).mp hl, ha⟩
+
+/-! ## observers, the error, histories, consumers -/
+
+/-- **every observer is notified at most once, exactly the positions whose record changes** — whatever the outcome
+    (also the positions stamped before a duplicate-modification error) -/
+theorem whole_write_notifies_once (K : KTree) (hnd : ∀ q, (K.kids q).Nodup) (pres : Nat → Bool) (now t p : Nat)
+    (L : Lmt) (h : Inv K.toTree now L) (ht : now ≤ t) :
+    ∀ x, (wholeN K p t pres L).count x = if whole K p t pres L x = L x then 0 else 1 := by
+  have S := whole_core K hnd pres now t p L h ht
+  have hb : ∀ x, L x ≤ t := fun x => Nat.le_trans (h.2 x) ht
+  have hW := whole_cases K p t pres L
+  unfold whole wholeN
+  generalize copyF K t pres (K.height p + 1) p L = o at S hW
+  intro x
+  rcases hW with ⟨hr, hw⟩ | ⟨hr, hw⟩
+  · rw [hw]
+    show (o.N ++ markUpN K.toTree (p + 1) p t o.L).count x = if markUp K.toTree (p + 1) p t o.L x = L x then 0 else 1
+    have hbo : ∀ x, o.L x ≤ t := by
+      intro x; rcases S.frame x with e | ⟨e, _⟩
+      · rw [e]; exact hb x
+      · omega
+    have hedge : ∀ c q, K.parent c = some q → o.L c ≤ o.L q ∨ (q = p ∧ o.L c = t) := by
+      intro c q hc
+      rcases S.frame c with e | ⟨e, hcp, hpc, hlt⟩
+      · left; rw [e]
+        have : L q ≤ o.L q := by
+          rcases S.frame q with e' | ⟨e', _⟩
+          · omega
+          · have := hb q; omega
+        exact Nat.le_trans (h.1 c q hc) this
+      · by_cases hq : q = p
+        · exact Or.inr ⟨hq, e⟩
+        · left
+          have := S.closed c q hc (anc_parent_of_ne hc hpc (Ne.symm hcp)) hq e
+          omega
+    obtain ⟨_, _, m3, m4⟩ := markUp_spec K.toTree t (p + 1) p o.L (Nat.lt_succ_self p) hbo hedge
+    obtain ⟨mem, pw⟩ := markUpN_spec K.toTree t (p + 1) p o.L (Nat.lt_succ_self p) hbo hedge
+    have hnodup : (markUpN K.toTree (p + 1) p t o.L).Nodup := pw.imp (fun hab => by omega)
+    rw [List.count_append, S.count x]
+    by_cases hxp : Anc K.toTree x p
+    · have hox : o.L x = L x := by
+        rcases S.frame x with e | ⟨_, hne, hpx, _⟩
+        · exact e
+        · have := anc_le hxp; have := anc_le hpx; omega
+      rw [m3 x hxp, if_pos hox]
+      by_cases hlt : L x < t
+      · have hm : x ∈ markUpN K.toTree (p + 1) p t o.L := (mem x).mpr ⟨hxp, by omega⟩
+        rw [List.Nodup.count hnodup, if_pos hm, if_neg (by omega)]
+      · have hm : x ∉ markUpN K.toTree (p + 1) p t o.L := fun hh => by have := ((mem x).mp hh).2; omega
+        have := hb x
+        rw [List.count_eq_zero_of_not_mem hm, if_pos (by omega)]
+    · have hm : x ∉ markUpN K.toTree (p + 1) p t o.L := fun hh => hxp ((mem x).mp hh).1
+      rw [m4 x hxp, List.count_eq_zero_of_not_mem hm, Nat.add_zero]
+  · rw [hw]; exact S.count x
+
+/-- **the duplicate-modification error is raised exactly when a present nested container that already carries `t`
+    (a direct write stamped it earlier in this cycle) has a present leaf below it that does not** -/
+theorem whole_write_error_iff_duplicate (K : KTree) (hnd : ∀ q, (K.kids q).Nodup) (pres : Nat → Bool) (now t p : Nat)
+    (L : Lmt) (h : Inv K.toTree now L) (ht : now ≤ t) :
+    (wholeOut K p t pres L).r = none ↔
+      ∃ y, y ≠ p ∧ Anc K.toTree p y ∧ L y = t ∧ ∃ l, PresLeaf K pres p l ∧ Anc K.toTree y l ∧ L l ≠ t := by
+  have S := whole_core K hnd pres now t p L h ht
+  have hPL := mem_presLeaves_fuel K pres p
+  rw [wholeOut_r]
+  generalize copyF K t pres (K.height p + 1) p L = o at S
+  constructor
+  · intro hn
+    obtain ⟨_, y, h1, h2, h3, l, hl, hyl, hne⟩ := S.err hn
+    exact ⟨y, h1, h2, h3, l, (hPL l).mp hl, hyl, hne⟩
+  · rintro ⟨y, h1, h2, h3, l, hl, hyl, hne⟩
+    cases hor : o.r with
+    | none => rfl
+    | some b => exact absurd ⟨l, (hPL l).mpr hl, hyl, hne⟩ ((S.ok b hor).2.2 y h1 h2 h3)
+
+/-- whatever the outcome, every record is either untouched or carries `t` afterwards; after an error only positions
+    strictly below the written one changed -/
+theorem whole_frame (K : KTree) (hnd : ∀ q, (K.kids q).Nodup) (pres : Nat → Bool) (now t p : Nat) (L : Lmt)
+    (h : Inv K.toTree now L) (ht : now ≤ t) :
+    (∀ x, whole K p t pres L x = L x ∨ whole K p t pres L x = t) ∧
+    ((wholeOut K p t pres L).r = none → ∀ x, whole K p t pres L x ≠ L x → x ≠ p ∧ Anc K.toTree p x) := by
+  have hi := whole_inv K hnd pres now t p L h ht
+  have S := whole_core K hnd pres now t p L h ht
+  have hb : ∀ x, L x ≤ t := fun x => Nat.le_trans (h.2 x) ht
+  have hW := whole_cases K p t pres L
+  rw [wholeOut_r]
+  unfold whole at hi ⊢
+  generalize copyF K t pres (K.height p + 1) p L = o at S hW
+  rcases hW with ⟨hr, hw⟩ | ⟨hr, hw⟩
+  · rw [hw] at hi ⊢
+    refine ⟨fun x => ?_, fun hn => by rw [hn] at hr; cases hr⟩
+    show markUp K.toTree (p + 1) p t o.L x = L x ∨ markUp K.toTree (p + 1) p t o.L x = t
+    have hbo : ∀ x, o.L x ≤ t := by
+      intro x; rcases S.frame x with e | ⟨e, _⟩
+      · rw [e]; exact hb x
+      · omega
+    have hedge : ∀ c q, K.parent c = some q → o.L c ≤ o.L q ∨ (q = p ∧ o.L c = t) := by
+      intro c q hc
+      rcases S.frame c with e | ⟨e, hcp, hpc, hlt⟩
+      · left; rw [e]
+        have : L q ≤ o.L q := by
+          rcases S.frame q with e' | ⟨e', _⟩
+          · omega
+          · have := hb q; omega
+        exact Nat.le_trans (h.1 c q hc) this
+      · by_cases hq : q = p
+        · exact Or.inr ⟨hq, e⟩
+        · left
+          have := S.closed c q hc (anc_parent_of_ne hc hpc (Ne.symm hcp)) hq e
+          omega
+    obtain ⟨_, _, m3, m4⟩ := markUp_spec K.toTree t (p + 1) p o.L (Nat.lt_succ_self p) hbo hedge
+    by_cases hxp : Anc K.toTree x p
+    · exact Or.inr (m3 x hxp)
+    · rw [m4 x hxp]
+      rcases S.frame x with e | ⟨e, _⟩
+      · exact Or.inl e
+      · exact Or.inr e
+  · rw [hw]
+    refine ⟨fun x => ?_, fun _ x hx => ?_⟩
+    · rcases S.frame x with e | ⟨e, _⟩
+      · exact Or.inl e
+      · exact Or.inr e
+    · rcases S.frame x with e | ⟨_, h1, h2, _⟩
+      · exact absurd e hx
+      · exact ⟨h1, h2⟩
+
+/-- times are positive and do not decrease -/
+def MonoW : Nat → List WOp → Prop
+  | _, [] => True
+  | now, o :: os => now ≤ o.time ∧ 0 < o.time ∧ MonoW o.time os
+
+def endTimeW : Nat → List WOp → Nat
+  | now, [] => now
+  | _, o :: os => endTimeW o.time os
+
+/-- the flat reading of one operation of a mixed history (the reference of the trace monitor in `tools/props/c04.py`):
+    leaf writes and invalidations as `SpecStep`; a whole-value write that raises no error stamps exactly the
+    positions at / above its present leaves; one that fails changes only records strictly below the written position,
+    and only to `t` -/
+def SpecStepW (K : KTree) (o : WOp) (L L' : Lmt) : Prop :=
+  match o with
+  | .w p t => SpecStep K.toTree (.w p t) L L'
+  | .inv p t => SpecStep K.toTree (.inv p t) L L'
+  | .ws p t pres =>
+    ((wholeOut K p t pres L).r ≠ none →
+      ∀ x, L' x = if (∃ l, PresLeaf K pres p l ∧ Anc K.toTree x l) then t else L x) ∧
+    ((wholeOut K p t pres L).r = none →
+      ∀ x, L' x = L x ∨ (L' x = t ∧ x ≠ p ∧ Anc K.toTree p x))
+
+theorem applyW_spec (K : KTree) (hnd : ∀ q, (K.kids q).Nodup) (now : Nat) (o : WOp) (L : Lmt)
+    (h : Inv K.toTree now L) (ht : now ≤ o.time) (h0 : 0 < o.time) :
+    SpecStepW K o L (applyW K o L) ∧ Inv K.toTree o.time (applyW K o L) := by
+  cases o with
+  | w p t => exact apply_spec K now (.w p t) L h ht h0
+  | inv p t => exact apply_spec K now (.inv p t) L h ht h0
+  | ws p t pres =>
+    simp only [WOp.time] at ht h0
+    refine ⟨⟨fun hok => whole_ok_pointwise K hnd pres now t p L h ht hok, fun hn x => ?_⟩,
+      whole_inv K hnd pres now t p L h ht⟩
+    obtain ⟨f1, f2⟩ := whole_frame K hnd pres now t p L h ht
+    show whole K p t pres L x = L x ∨ _
+    by_cases hx : whole K p t pres L x = L x
+    · exact Or.inl hx
+    · right
+      exact ⟨(f1 x).resolve_left hx, f2 hn x hx⟩
+
+/-- **`lmt child ≤ lmt parent ≤ now` holds after every history mixing leaf writes, whole-value writes (dense, sparse,
+    all-unset, failing) and invalidations** with non-decreasing times, on every finite tree -/
+theorem runW_inv (K : KTree) (hnd : ∀ q, (K.kids q).Nodup) : ∀ (ops : List WOp) (now : Nat) (L : Lmt),
+    Inv K.toTree now L → MonoW now ops → Inv K.toTree (endTimeW now ops) (runW K ops L) := by
+  intro ops
+  induction ops with
+  | nil => intro now L h _; exact h
+  | cons o os ih =>
+    intro now L h hm
+    obtain ⟨h1, h2, h3⟩ := hm
+    exact ih o.time (applyW K o L) (applyW_spec K hnd now o L h h1 h2).2 h3
+
+theorem monoW_snoc : ∀ (pre : List WOp) (now : Nat) (o : WOp), MonoW now (pre ++ [o]) →
+    MonoW now pre ∧ endTimeW now pre ≤ o.time ∧ 0 < o.time := by
+  intro pre
+  induction pre with
+  | nil => intro now o h; exact ⟨trivial, h.1, h.2.1⟩
+  | cons a as ih =>
+    intro now o h
+    obtain ⟨h1, h2, h3⟩ := h
+    obtain ⟨i1, i2, i3⟩ := ih a.time o h3
+    exact ⟨⟨h1, h2, i1⟩, i2, i3⟩
+
+/-- **every step of every mixed history refines the flat reading** — so `valid` = "written (by a leaf write or as a
+    present leaf of a whole-value write) and not invalidated since", `modified` = "written in this cycle" -/
+theorem runW_spec_refines (K : KTree) (hnd : ∀ q, (K.kids q).Nodup) (pre : List WOp) (o : WOp) (now : Nat) (L : Lmt)
+    (h : Inv K.toTree now L) (hm : MonoW now (pre ++ [o])) :
+    SpecStepW K o (runW K pre L) (runW K (pre ++ [o]) L) := by
+  obtain ⟨m1, m2, m3⟩ := monoW_snoc pre now o hm
+  have hi := runW_inv K hnd pre now L h m1
+  have : runW K (pre ++ [o]) L = applyW K o (runW K pre L) := by simp [runW, List.foldl_append]
+  rw [this]
+  exact (applyW_spec K hnd (endTimeW now pre) o (runW K pre L) hi m2 m3).1
+
+/-- the link record of a bound input through a whole-value write: `link ≤ now`, and `link = lmt root` whenever the
+    root is valid — so `consumer_eq_producer_below_root / _valid_root` keep describing every bound input -/
+theorem link_step_inv_whole (K : KTree) (hnd : ∀ q, (K.kids q).Nodup) (r : Nat) (now : Nat) (o : WOp) (L : Lmt) (k : Nat)
+    (hr : K.parent r = none) (h : Inv K.toTree now L) (hk : LinkInv r L k now) (ht : now ≤ o.time) (h0 : 0 < o.time) :
+    LinkInv r (applyW K o L) (linkStepW r o L (applyW K o L) k) o.time := by
+  cases o with
+  | w p t => exact link_step_inv K r hr now (.w p t) L k h hk ht h0
+  | inv p t => exact link_step_inv K r hr now (.inv p t) L k h hk ht h0
+  | ws p t pres =>
+    simp only [WOp.time] at ht h0
+    obtain ⟨k1, k2⟩ := hk
+    obtain ⟨f1, _⟩ := whole_frame K hnd pres now t p L h ht
+    show LinkInv r (whole K p t pres L) (if whole K p t pres L r = L r then k else linkRecord k t) t
+    by_cases heq : whole K p t pres L r = L r
+    · rw [if_pos heq]
+      exact ⟨Nat.le_trans k1 ht, fun hne => by rw [heq] at hne ⊢; exact k2 hne⟩
+    · rw [if_neg heq, linkRecord_now k1 ht]
+      exact ⟨Nat.le_refl _, fun _ => ((f1 r).resolve_left heq).symm⟩
+
+/-- producer state and link record of one bound input through a mixed history -/
+def runWL (K : KTree) (r : Nat) : List WOp → Lmt × Nat → Lmt × Nat
+  | [], s => s
+  | o :: os, s => runWL K r os (applyW K o s.1, linkStepW r o s.1 (applyW K o s.1) s.2)
+
+theorem link_inv_runW (K : KTree) (hnd : ∀ q, (K.kids q).Nodup) (r : Nat) (hr : K.parent r = none) :
+    ∀ (ops : List WOp) (now : Nat) (L : Lmt) (k : Nat),
+    Inv K.toTree now L → LinkInv r L k now → MonoW now ops →
+    Inv K.toTree (endTimeW now ops) (runWL K r ops (L, k)).1 ∧
+    LinkInv r (runWL K r ops (L, k)).1 (runWL K r ops (L, k)).2 (endTimeW now ops) := by
+  intro ops
+  induction ops with
+  | nil => intro now L k h hk _; exact ⟨h, hk⟩
+  | cons o os ih =>
+    intro now L k h hk hm
+    obtain ⟨h1, h2, h3⟩ := hm
+    exact ih o.time _ _ (applyW_spec K hnd now o L h h1 h2).2 (link_step_inv_whole K hnd r now o L k hr h hk h1 h2) h3
+
+/-- a whole-value "write" at a childless position is the leaf write -/
+theorem whole_leaf_eq_write (K : KTree) (p t : Nat) (pres : Nat → Bool) (L : Lmt) (hleaf : K.kids p = []) :
+    whole K p t pres L = write K.toTree p t L := by
+  unfold whole wholeOut
+  rw [copyF_succ, if_pos hleaf]
+  by_cases hpt : L p = t
+  · have : (L p != t) = false := by simp [hpt]
+    simp only [this]
+    rw [write_coalesces K.toTree t p L hpt]
+  · have : (L p != t) = true := by simp [hpt]
+    simp only [this]
+    rfl
+
+/-! ## the seeded wrong answer -/
+
+theorem markUp_other (T : Tree) (t : Nat) : ∀ (fuel q : Nat) (L : Lmt) (x : Nat), q < x → markUp T fuel q t L x = L x := by
+  intro fuel
+  induction fuel with
+  | zero => intro q L x _; rfl
+  | succ fuel ih =>
+    intro q L x hqx
+    unfold markUp
+    split
+    · rfl
+    · cases hpar : T.parent q with
+      | none => simp only; simp [upd]; omega
+      | some q' =>
+        simp only
+        have := T.wf q q' hpar
+        rw [ih q' (upd L q t) x (by omega)]
+        simp [upd]; omega
+
+/-- **counter-lemma (seeded change s127)**: with the answer "first for parent" instead of "some child was newly
+    modified", a whole-value write whose value has every field unset stamps the bundle — it reads modified at `t` and
+    valid although nothing was written (as coded, `whole_write_all_unset_is_noop`: nothing changes) -/
+theorem first_for_parent_ticks_unwritten_bundle_general (K : KTree) (p t : Nat) (pres : Nat → Bool) (L : Lmt)
+    (hcont : K.kids p ≠ []) (hun : ∀ c, K.parent c = some p → pres c = false) (hlt : L p < t) :
+    modified (wholeFP K p t pres L) p t ∧ valid (wholeFP K p t pres L) p ∧
+    (wholeOut K p t pres L).L = L := by
+  have hc : copyFP K t pres (K.height p + 1) p L = ⟨L, [], [], some true⟩ := by
+    show (if K.kids p = [] then _ else _) = _
+    rw [if_neg hcont]
+    have := foldl_childStep_unset t pres (fun c M => copyFP K t pres (K.height p) c M) (K.kids p) ⟨L, [], [], some false⟩
+      (fun c hc => hun c ((K.kids_iff p c).mp hc))
+    simp only [this]
+    have : (L p != t) = true := by simp; omega
+    rw [this]
+  have hval : wholeFP K p t pres L p = t := by
+    unfold wholeFP
+    rw [hc]
+    simp only
+    unfold markUp
+    rw [if_neg (by omega)]
+    cases hpar : K.parent p with
+    | none => simp [upd]
+    | some q =>
       simp only
-      obtain ⟨m1, m2, _, _⟩ := markUp_spec K.toTree t (p + 1) p o.L (Nat.lt_succ_self p) hbo hedge
-      exact ⟨m1, m2⟩
+      rw [markUp_other K.toTree t p q (upd L p t) p (K.wf p q hpar)]
+      simp [upd]
+  refine ⟨hval, ?_, ?_⟩
+  · unfold valid; omega
+  · rw [whole_write_all_unset_is_noop K p t pres L hcont hun]
+
+/-! ## non-vacuity
+
+`exK` = `TSB{a, b:TSB{c, d}}` = positions 0 (root), 1 (a), 2 (b), 3 (c), 4 (d); `exL` = after `w a@1, w c@2, w d@2`
+(`Props/C04.lean`). -/
+
+theorem ofParents_kids_nodup (a : Array (Option Nat)) : ∀ q, ((KTree.ofParents a).kids q).Nodup := by
+  intro q
+  exact List.Pairwise.filter _ List.nodup_range
+
+example : ∀ q, (exK.kids q).Nodup := ofParents_kids_nodup _
+
+/-- the sparse value `(_, (_, 7))`: only `b` and `b.d` are present -/
+def exSparse : Nat → Bool := fun x => x == 2 || x == 4
+/-- the value `(_, (_, _))`: the inner bundle is present but empty -/
+def exInnerEmpty : Nat → Bool := fun x => x == 2
+/-- the all-unset value `(_, _)` -/
+def exUnset : Nat → Bool := fun _ => false
+
+example : presLeaves exK exSparse 0 = [4] ∧ presLeaves exK exInnerEmpty 0 = [] ∧ presLeaves exK exUnset 0 = [] ∧
+    presLeaves exK (fun _ => true) 0 = [1, 3, 4] := by decide
+example : PresLeaf exK exSparse 0 4 := (mem_presLeaves_iff exK exSparse 0 4).mp (by decide)
+/-- sparse write at 3 from `exL = [2,1,2,2,2]`: root, `b`, `d` tick; `a` and `c` keep their times -/
+example : (List.range 5).map (whole exK 0 3 exSparse exL) = [3, 1, 3, 2, 3] ∧ wholeN exK 0 3 exSparse exL = [4, 2, 0] := by decide
+/-- all-unset and inner-present-but-empty values change nothing and notify nobody, on a written bundle ... -/
+example : (List.range 5).map (whole exK 0 3 exUnset exL) = [2, 1, 2, 2, 2] ∧ wholeN exK 0 3 exUnset exL = [] ∧
+    (List.range 5).map (whole exK 0 3 exInnerEmpty exL) = [2, 1, 2, 2, 2] ∧ wholeN exK 0 3 exInnerEmpty exL = [] := by decide
+/-- ... and on a never written one, where the seeded answer stamps the root (and, for the inner-empty value, the
+    inner bundle too) -/
+example : (List.range 5).map (whole exK 0 3 exUnset (fun _ => 0)) = [0, 0, 0, 0, 0] ∧
+    (List.range 5).map (wholeFP exK 0 3 exUnset (fun _ => 0)) = [3, 0, 0, 0, 0] ∧
+    (List.range 5).map (wholeFP exK 0 3 exInnerEmpty (fun _ => 0)) = [3, 0, 3, 0, 0] := by decide
+
+/-- **counter-lemma, concrete witness**: the never written two-level bundle, the all-unset value, cycle 3 -/
+theorem first_for_parent_ticks_unwritten_bundle :
+    modified (wholeFP exK 0 3 exUnset (fun _ => 0)) 0 3 ∧ valid (wholeFP exK 0 3 exUnset (fun _ => 0)) 0 ∧
+    ¬ modified (whole exK 0 3 exUnset (fun _ => 0)) 0 3 ∧ ¬ valid (whole exK 0 3 exUnset (fun _ => 0)) 0 ∧
+    presLeaves exK exUnset 0 = [] := by decide
+
+/-- the duplicate-modification error: `c` written directly at 5 (stamps `c`, `b`, root), then the value `(_, (_, 7))`
+    in the same cycle: `d` is stored and stamped, the inner bundle `b` reports a modification its record already
+    has.  The records stay ordered. -/
+example : (wholeOut exK 0 5 exSparse (write exK.toTree 3 5 exL)).r = none ∧
+    (List.range 5).map (whole exK 0 5 exSparse (write exK.toTree 3 5 exL)) = [5, 1, 5, 5, 5] ∧
+    wholeN exK 0 5 exSparse (write exK.toTree 3 5 exL) = [4] := by decide
+/-- the same value one cycle later is fine -/
+example : (wholeOut exK 0 6 exSparse (write exK.toTree 3 5 exL)).r = some true := by decide
+
+example : MonoW 0 [.w 1 1, .ws 0 2 exSparse, .ws 0 2 exUnset, .inv 2 3, .ws 0 3 exInnerEmpty, .ws 2 4 (fun x => x == 3)] := by
+  simp [MonoW, WOp.time]
+example : (List.range 5).map (runW exK [.w 1 1, .ws 0 2 exSparse, .ws 0 2 exUnset, .inv 2 3, .ws 0 3 exInnerEmpty,
+    .ws 2 4 (fun x => x == 3)] (fun _ => 0)) = [4, 1, 4, 4, 0] := by decide
+/-- the link record of an input bound from the start follows the root through whole-value writes -/
+example : (runWL exK 0 [.ws 0 2 exUnset, .ws 0 3 exSparse, .ws 0 4 exInnerEmpty] (fun _ => 0, linkBind 0 (fun _ => 0))).2 = 3 := by
+  decide
 
 end HgVerif.Tracking
